@@ -36,6 +36,9 @@ def main():
         items.append((pid, f))
     for mf in sorted(glob.glob(os.path.join(ROOT, "seeded", "*", "meta.json"))):
         m = json.load(open(mf))
+        if m.get("expected_miss"):
+            print("KNOWN-MISS %s %s" % (os.path.basename(os.path.dirname(mf)), m["expected_miss"]), flush=True)
+            continue
         for pid in (m.get("detected_by") or [m.get("property")]):
             items.append((pid, os.path.join(os.path.dirname(mf), "patch.diff")))
     # behaviour-preserving changes (benign/): the checks must stay quiet
